@@ -283,8 +283,8 @@ FsAlpha(ins) == IF ins.dens = <<>> THEN <<1, 1>>
                 ELSE LET k == FsMostCongested(ins) IN
                      <<2 * ins.dens[1] * FsPerim(ins, k) * ins.unit[1], ins.dens[2] * FsWeightOf(ins, k) * ins.unit[2]>>
 \* a connection of weight 0 becomes a net of weight 1 (manager.py: `wei if wei > 0 else 1`), in BOTH tables
-FsNetWeight(ins, w) == IF w[1] = 0 THEN <<1, 1>> ELSE <<w[1] * FsAlpha(ins)[1], w[2] * FsAlpha(ins)[2]>>
-ConvertNetlist(inst) ==
+FsNetWeight(al, w) == IF w[1] = 0 THEN <<1, 1>> ELSE <<w[1] * al[1], w[2] * al[2]>>
+ConvertWith(inst, al) ==
   [mods |-> [i \in DOMAIN inst.blocks |-> LET b == inst.blocks[i]
                                               rs == [k \in DOMAIN b.shape |-> b.shape[k] \o <<Ground>>] IN
                IF b.kind = "fixed" THEN Mod("M" \o ToString(i - 1), Fixed, <<0, 1>>, <<>>, rs)
@@ -292,8 +292,10 @@ ConvertNetlist(inst) ==
                ELSE Mod("M" \o ToString(i - 1), Soft, <<b.area, 1>>,
                         <<ShapeMx(b.shape), ShapeMy(b.shape), 2 * ShapeArea(b.shape)>>, rs)]
             \o [j \in DOMAIN inst.pins |-> Mod("T" \o ToString(j - 1), Terminal, <<0, 1>>, <<2 * inst.pins[j][1], 2 * inst.pins[j][2], 2>>, <<>>)],
-   nets |-> [i \in DOMAIN inst.b2b |-> Net(<<"M" \o ToString(inst.b2b[i][1]), "M" \o ToString(inst.b2b[i][2])>>, FsNetWeight(inst, inst.b2b[i][3]))]
-            \o [i \in DOMAIN inst.p2b |-> Net(<<"T" \o ToString(inst.p2b[i][1]), "M" \o ToString(inst.p2b[i][2])>>, FsNetWeight(inst, inst.p2b[i][3]))]]
+   nets |-> [i \in DOMAIN inst.b2b |-> Net(<<"M" \o ToString(inst.b2b[i][1]), "M" \o ToString(inst.b2b[i][2])>>, FsNetWeight(al, inst.b2b[i][3]))]
+            \o [i \in DOMAIN inst.p2b |-> Net(<<"T" \o ToString(inst.p2b[i][1]), "M" \o ToString(inst.p2b[i][2])>>, FsNetWeight(al, inst.p2b[i][3]))]]
+\* (the factor is worked out once: a bound variable holds a value)
+ConvertNetlist(inst) == CHOOSE r \in { ConvertWith(inst, al) : al \in { FsAlpha(inst) } } : TRUE
 \* the die of the instance: spanned by the pins
 ConvertDie(inst) == [w |-> Max({ inst.pins[j][1] : j \in DOMAIN inst.pins }), h |-> Max({ inst.pins[j][2] : j \in DOMAIN inst.pins }), regs |-> <<>>]
 
@@ -588,10 +590,12 @@ SameModsObs(e, o) == /\ Len(e.mods) = Len(o.mods)
 SameFlipObs(e, o) == \A i \in DOMAIN e.mods : \A j \in DOMAIN o.mods : e.mods[i].name = o.mods[j].name => e.mods[i].kind[4] = o.mods[j].kind[4]
 \* (weights within one unit of 1/K: density-scaled weights are not multiples of 1/K)
 NetNear(x, y) == [nm \in Range(x.pins) |-> Count(x.pins, nm)] = [nm \in Range(y.pins) |-> Count(y.pins, nm)] /\ NearQ(y.w, x.w[1], x.w[2])
-SameNetsObs(e, o) == /\ Len(e.nets) = Len(o.nets)
-                     /\ \A i \in DOMAIN e.nets : Cardinality({ j \in DOMAIN o.nets : NetNear(e.nets[i], o.nets[j]) })
-                                                  >= Cardinality({ j \in DOMAIN e.nets : e.nets[j] = e.nets[i] })
-                     /\ \A j \in DOMAIN o.nets : \E i \in DOMAIN e.nets : NetNear(e.nets[i], o.nets[j])
+NetsMatch(en, on) == /\ Len(en) = Len(on)
+                     /\ \A i \in DOMAIN en : Cardinality({ j \in DOMAIN on : NetNear(en[i], on[j]) })
+                                             >= Cardinality({ j \in DOMAIN en : en[j] = en[i] })
+                     /\ \A j \in DOMAIN on : \E i \in DOMAIN en : NetNear(en[i], on[j])
+\* (the expected nets are worked out once: a bound variable holds a value)
+SameNetsObs(e, o) == \A en \in { e.nets } : NetsMatch(en, o.nets)
 \* finer than the statement (model conformance only): region tags of the rectangles, order of modules and nets
 TagsAndOrder(e, o) == /\ [i \in DOMAIN e.mods |-> e.mods[i].name] = [i \in DOMAIN o.mods |-> o.mods[i].name]
                       /\ \A i \in DOMAIN e.mods : \A j \in DOMAIN o.mods : e.mods[i].name = o.mods[j].name =>
